@@ -234,6 +234,13 @@ func runCheck(o *checkOpts) int {
 		}
 		fn := e.fnByKey[fnKeyName]
 		u := &Unit{c: c, name: shortUnit(c)}
+		if c.Options["callee-preconditions"] == "assumed" {
+			// only a variant may lean on the primary unit of the same function for the call preconditions
+			if pc, ok := specs.Contracts[fnKeyName]; !ok || fnKeyName == c.Key() || pc.Trusted || pc.Inline {
+				fmt.Fprintf(os.Stderr, "govc: specification error: %s: option callee-preconditions assumed needs a verified primary contract of the same function\n", c.Key())
+				return 2
+			}
+		}
 		if fn == nil {
 			u.err = "binding: no function " + c.Key() + " in the current tree"
 			if o.verbose {
